@@ -104,7 +104,9 @@ def run(spec: StreamSpec, tier: str, seed: int) -> int:
 
     def still_disagrees(cand):
         rr = evaluate(spec, [cand], ambient)[0]
-        return rr['dis'] is not None
+        # a candidate the model rejects as malformed ('bad-op': the deletion left a dangling circuit/handle index) is not a
+        # smaller failing program — both sides refuse it
+        return rr['dis'] is not None and rr['dis'][2] != 'bad-op'
 
     reported = set()
     for r in results:
